@@ -206,6 +206,8 @@ class Opaque(V):
     taint: frozenset = frozenset()
     text: str = ""
     payload: "V | None" = None  # what a Config / FileFilter was built from (the pattern tuple)
+    cfg: "dict | None" = None  # a configuration object: attribute -> value it was built with
+    exact: bool = False  # a pattern filter whose taint is that of exactly the configuration attributes its tests read
 
 
 _loop_serial = itertools.count(1)
@@ -370,6 +372,7 @@ class EnumV(V):
 
     src: V
     grouped: bool = False
+    start: "int | None" = 0  # enumerate(xs, start); None: not a constant
 
 
 @dataclass(eq=False)
@@ -536,6 +539,146 @@ class _Mapped:
 
     fn: "V | str | None"
     inner: "V | _Mapped | None"
+    index: "int | None" = None  # enumerate over a sequence whose elements are all known: the position
+
+
+# --------------------------------------------------------------------------- the pattern filter, field by field
+
+
+_REFLECTION = {"getattr", "vars", "astuple", "asdict", "fields", "replace", "__dict__", "setattr", "locals", "globals"}
+
+
+def config_fields(ci: ClassInfo) -> "list[tuple[str, ast.expr | None]] | None":
+    """The attributes of the configuration class in the order of its constructor arguments, with their defaults: annotated
+    attributes of a dataclass-like class without `__init__`, or the parameters of an `__init__` that stores each of them in an
+    attribute (`self.a = a`).  None: not that simple."""
+    init = ci.methods.get("__init__")
+    if init is None:
+        out = []
+        for st in ci.node.body:
+            if isinstance(st, ast.AnnAssign) and isinstance(st.target, ast.Name) and "ClassVar" not in ast.unparse(st.annotation):
+                out.append((st.target.id, st.value))
+        return out or None
+    a = init.node.args
+    if a.vararg or a.kwarg or a.kwonlyargs or a.posonlyargs:
+        return None
+    params = [x.arg for x in a.args][1:]
+    defaults = dict(zip(params[len(params) - len(a.defaults):], a.defaults)) if a.defaults else {}
+    stored: dict[str, str] = {}
+    for st in init.node.body:
+        if isinstance(st, (ast.Assign, ast.AnnAssign)) and st.value is not None and isinstance(st.value, ast.Name) and st.value.id in params:
+            for t in (st.targets if isinstance(st, ast.Assign) else [st.target]):
+                if isinstance(t, ast.Attribute) and isinstance(t.value, ast.Name) and t.value.id == "self":
+                    stored[st.value.id] = t.attr
+    if set(stored) != set(params):
+        return None
+    return [(stored[p_], defaults.get(p_)) for p_ in params]
+
+
+def filter_reads(ci: ClassInfo) -> "dict[str, frozenset] | None":
+    """Which attributes of the configuration the public tests of the pattern filter depend on, method by method: data flow inside
+    the class from `<config parameter>.<attribute>` into fields of `self` (through locals, loops, comprehensions) and from the
+    fields into the methods that read them (through `self.helper()` calls; `@m.register` functions belong to `m`).  None when the
+    class does something this summary does not follow (the configuration handed on as a whole, reflection, inheritance)."""
+    if [b for b in ci.base_exprs if ast.unparse(b) not in ("object",)]:
+        return None
+    fns = [st for st in ci.node.body if isinstance(st, (ast.FunctionDef, ast.AsyncFunctionDef))]
+    for n in ast.walk(ci.node):
+        if isinstance(n, ast.Name) and n.id in _REFLECTION or isinstance(n, ast.Attribute) and n.attr in _REFLECTION:
+            return None
+    group: dict[int, str] = {}
+    for fn in fns:
+        g = fn.name
+        for d in fn.decorator_list:
+            if isinstance(d, ast.Call) and isinstance(d.func, ast.Attribute) and d.func.attr == "register" and isinstance(d.func.value, ast.Name):
+                g = d.func.value.id
+        group[id(fn)] = g
+    init = next((fn for fn in fns if fn.name == "__init__"), None)
+    if init is None or len(init.args.args) < 2:
+        return None
+    cfg = init.args.args[1].arg
+    cfg_fields: set[str] = set()
+    field_src: dict[str, set] = {}
+    # the configuration parameter itself may only be read attribute by attribute, or stored in a field
+    parents = {id(c): n for n in ast.walk(init) for c in ast.iter_child_nodes(n)}
+    for n in ast.walk(init):
+        if isinstance(n, ast.Name) and n.id == cfg and isinstance(n.ctx, ast.Load):
+            par = parents.get(id(n))
+            if isinstance(par, ast.Attribute) and par.value is n:
+                continue
+            if isinstance(par, (ast.Assign, ast.AnnAssign)) and par.value is n:
+                ts = par.targets if isinstance(par, ast.Assign) else [par.target]
+                if all(isinstance(t, ast.Attribute) and isinstance(t.value, ast.Name) and t.value.id == "self" for t in ts):
+                    cfg_fields |= {t.attr for t in ts}
+                    continue
+            return None
+
+    def attrs_of(e: ast.AST, env: dict, fn) -> set:
+        out: set = set()
+        for n in ast.walk(e):
+            if isinstance(n, ast.Attribute) and isinstance(n.value, ast.Name) and n.value.id == cfg and fn is init:
+                out.add(n.attr)
+            elif isinstance(n, ast.Attribute) and isinstance(n.value, ast.Attribute) and isinstance(n.value.value, ast.Name) and n.value.value.id == "self" and n.value.attr in cfg_fields:
+                out.add(n.attr)
+            elif isinstance(n, ast.Attribute) and isinstance(n.value, ast.Name) and n.value.id == "self" and isinstance(n.ctx, ast.Load):
+                out |= field_src.get(n.attr, set())
+            elif isinstance(n, ast.Name) and isinstance(n.ctx, ast.Load):
+                out |= env.get(n.id, set())
+        return out
+
+    def names_in(t: ast.AST) -> list:
+        return [n.id for n in ast.walk(t) if isinstance(n, ast.Name)]
+
+    for _round in range(4):
+        before = {k_: set(v) for k_, v in field_src.items()}
+        for fn in fns:
+            env: dict = {}
+            for _pass in range(2):
+                for n in ast.walk(fn):
+                    if isinstance(n, (ast.For, ast.AsyncFor, ast.comprehension)):
+                        src = attrs_of(n.iter, env, fn)
+                        for v in names_in(n.target):
+                            env.setdefault(v, set()).update(src)
+                    elif isinstance(n, (ast.Assign, ast.AnnAssign, ast.AugAssign, ast.NamedExpr)) and getattr(n, "value", None) is not None:
+                        src = attrs_of(n.value, env, fn)
+                        ts = n.targets if isinstance(n, ast.Assign) else [n.target]
+                        for t in ts:
+                            for x in ast.walk(t):
+                                if isinstance(x, ast.Attribute) and isinstance(x.value, ast.Name) and x.value.id == "self" and isinstance(x.ctx, ast.Store):
+                                    field_src.setdefault(x.attr, set()).update(src)
+                                elif isinstance(x, ast.Name) and isinstance(x.ctx, ast.Store):
+                                    env.setdefault(x.id, set()).update(src)
+                                elif isinstance(x, ast.Subscript) and isinstance(x.ctx, ast.Store):
+                                    for y in ast.walk(x.value):
+                                        if isinstance(y, ast.Attribute) and isinstance(y.value, ast.Name) and y.value.id == "self":
+                                            field_src.setdefault(y.attr, set()).update(src)
+                                        elif isinstance(y, ast.Name):
+                                            env.setdefault(y.id, set()).update(src)
+                    elif isinstance(n, ast.Call) and isinstance(n.func, ast.Attribute) and n.func.attr in ("append", "extend", "add", "update", "insert", "setdefault", "appendleft", "extendleft"):
+                        src = set()
+                        for a_ in [*n.args, *[k_.value for k_ in n.keywords]]:
+                            src |= attrs_of(a_, env, fn)
+                        r = n.func.value
+                        if isinstance(r, ast.Attribute) and isinstance(r.value, ast.Name) and r.value.id == "self":
+                            field_src.setdefault(r.attr, set()).update(src)
+                        elif isinstance(r, ast.Name):
+                            env.setdefault(r.id, set()).update(src)
+        if before == field_src:
+            break
+    direct: dict[str, set] = {}
+    calls: dict[str, set] = {}
+    for fn in fns:
+        g = group[id(fn)]
+        direct.setdefault(g, set()).update(attrs_of(fn, {}, fn) if fn is not init else set())
+        for n in ast.walk(fn):
+            if isinstance(n, ast.Call) and isinstance(n.func, ast.Attribute) and isinstance(n.func.value, ast.Name) and n.func.value.id == "self":
+                calls.setdefault(g, set()).add(n.func.attr)
+    reads = {g: set(v) for g, v in direct.items()}
+    for _round in range(len(reads) + 1):
+        for g, cs in calls.items():
+            for c in cs:
+                reads[g] |= reads.get(c, set())
+    return {g: frozenset(v) for g, v in reads.items()}
 
 
 # --------------------------------------------------------------------------- the interpreter
@@ -569,6 +712,8 @@ class Interp:
         self._class_attrs: dict[tuple[str, str], V] = {}
         self._bound: dict = {}  # markers of variables bound by closures
         self.int_def: "Formula | None" = None  # what INT[x0] means in terms of other atoms about x0 (set by the rules)
+        self._vocab: dict = {}  # summaries of the vocabulary classes (config_fields / filter_reads)
+        self.ext_scans: list = []  # (function, call): a scanner built with a pattern filter that evaluates the external patterns
         self._run_conds: list[Formula] = []  # conditions attached to the element of the current run (filtering dict comprehension)
 
     # ------------------------------------------------------------------ helpers
@@ -1081,7 +1226,11 @@ class Interp:
                 return a
         mn1, mn2 = maybe_none(v1), maybe_none(v2)
         mn = True if (mn1 or mn2) else (False if (mn1 is False and mn2 is False) else None)
-        return Unknown(f"ite({key(v1)},{key(v2)})", taint_of(v1) | taint_of(v2), mn)
+        out_ = Unknown(f"ite({key(v1)},{key(v2)})", taint_of(v1) | taint_of(v2), mn)
+        for a, b in ((v1, v2), (v2, v1)):
+            if self._is_pattern_tuple(a) and (isinstance(b, NoneV) or (isinstance(b, TupleV) and not b.items) or self._is_pattern_tuple(b)):
+                out_._pattern_tuple = True  # type: ignore[attr-defined]  # (`() if patterns is None else patterns`: still the pattern tuple)
+        return out_
 
     # ------------------------------------------------------------------ loops
     def iteration_plan(self, fr: Frame, src: V, node: ast.AST) -> list:
@@ -1094,7 +1243,10 @@ class Interp:
                 runs.append((_Mapped(src.fn, value), g, lp, ckey))
             return runs
         if isinstance(src, EnumV):
-            return [(_Mapped("groupby" if src.grouped else None, value), g, lp, ckey) for value, g, lp, ckey in self.iteration_plan(fr, src.src, node)]
+            inner = self.iteration_plan(fr, src.src, node)
+            # (concrete runs) a sequence written out element by element under one condition: the positions are known
+            exact = self.concrete and not src.grouped and src.start is not None and bool(inner) and all(lp is None and ckey is None and g == inner[0][1] for _v, g, lp, ckey in inner) and self._sequence_items(src.src) is not None
+            return [(_Mapped("groupby" if src.grouped else None, value, (src.start + i) if exact else None), g, lp, ckey) for i, (value, g, lp, ckey) in enumerate(inner)]
         if isinstance(src, DictCompV):
             gen = src.node.generators[0]
             saved_env = src.fr.env
@@ -1265,7 +1417,7 @@ class Interp:
             if value.fn == "groupby":
                 return TupleV([inner, Unknown(f"group@{getattr(node, 'lineno', 0)}", maybe_none=False)])
             if value.fn is None:  # enumerate
-                idx = Unknown(f"index@{getattr(node, 'lineno', 0)}", maybe_none=False)
+                idx = Unknown(f"index@{getattr(node, 'lineno', 0)}", maybe_none=False) if value.index is None else Const(value.index)
                 idx._elem = inner  # type: ignore[attr-defined]
                 return TupleV([idx, inner])
             if isinstance(value.fn, DictCompV):
@@ -1732,6 +1884,23 @@ class Interp:
                 self.loops = saved
                 self.frames.pop()
 
+    @staticmethod
+    def _sequence_items(v: V) -> "tuple[list, Formula] | None":
+        """The elements of a sequence that was written out element by element (`[*parents, name]`) under one and the same condition,
+        in order, with that condition; None when some part is not a literal item, is only partially known, or parts differ in
+        their conditions (then positions are not known)."""
+        if isinstance(v, TupleV):
+            return list(v.items), TRUE
+        if not isinstance(v, Coll) or not v.parts or v.removals or v.keyed:
+            return None
+        g0 = v.parts[0].guard
+        items: list = []
+        for p in v.parts:
+            if p.kind != "lit" or p.partial or p.guard != g0:
+                return None
+            items += list(p.items)
+        return items, g0
+
     def copy_of(self, v: V, label: str = "") -> Coll:
         c = self.as_coll(v)
         return Coll(list(c.parts), list(c.removals), label or c.label)
@@ -1763,6 +1932,10 @@ class Interp:
         alts = []
         drawn = self._drawn_from(v) if isinstance(v, Elem) else set()
         for p in c.parts:
+            if p.partial and self.concrete:
+                # a part the model only knows partially (a slice, a loop left by break): whether the value is in it is an open fact
+                alts.append(conj([p.guard, self.free(f"IN[{k},{p.what or p.kind}@{getattr(p.node, 'lineno', 0)}]", frozenset({"GAP"}))]))
+                continue
             if p.kind == "base" and p.base in drawn:
                 alts.append(p.guard)  # the element is taken from this very collection
             elif p.kind == "base":
@@ -1791,6 +1964,12 @@ class Interp:
                         continue
                     if it is v:
                         alts.append(p.guard)
+                        continue
+                    cv_, ci_ = conc(v), conc(it)
+                    if cv_ is not _NOCONC and ci_ is not _NOCONC:
+                        # two constants (tuples of constants): equal or not, no open fact
+                        if cv_ == ci_:
+                            alts.append(p.guard)
                         continue
                     alts.append(conj([p.guard, self.free("EQ[" + ",".join(sorted([k, key(it)])) + "]", self.cmp_taint(v, it))]))
         return disj(alts)
@@ -2195,6 +2374,25 @@ class Interp:
                     if k_ == key(sl):
                         return val  # what was stored under this very key (memo table)
                 return Unknown(f"{key(v)}[{key(sl)}]", self.value_taint(v) | taint_of(sl) | {"GAP"})
+            if isinstance(v, Coll) and self.concrete and not v.keyed:
+                # (concrete runs) a list written out element by element under one condition: slices and indices are exact
+                seq = self._sequence_items(v)
+                if seq is not None:
+                    items, g_seq = seq
+                    try:
+                        if isinstance(e.slice, ast.Slice):
+                            bounds = [None if b is None else conc(self.ev(fr, b)) for b in (e.slice.lower, e.slice.upper, e.slice.step)]
+                            if all(b is None or (isinstance(b, int) and not isinstance(b, bool)) for b in bounds):
+                                out = Coll(label=v.label)
+                                for it_ in items[slice(*bounds)]:
+                                    out.parts.append(Part("lit", g_seq, items=(it_,), fi=fr.fi, node=e))
+                                return out
+                        else:
+                            ci = conc(self.ev(fr, e.slice))
+                            if isinstance(ci, int) and not isinstance(ci, bool):
+                                return items[ci]
+                    except IndexError:
+                        return Unknown(f"{key(v)}[..]", frozenset({"GAP"}))
             if isinstance(v, Coll):
                 if isinstance(e.slice, ast.Slice):
                     c = self.copy_of(v)
@@ -2503,6 +2701,11 @@ class Interp:
             if isinstance(f.recv, AltV):
                 return self.distribute(f.recv, lambda x: self.call_method(fr, x, f.attr, args, kwargs, e))
             return self.call_method(fr, f.recv, f.attr, args, kwargs, e)
+        if isinstance(f, Obj):
+            # a callable object of the pipeline (`InternalModuleMatcher(prefix)(module)`): its `__call__` is an ordinary method
+            m = self.repo.lookup_method(f.cls, "__call__")
+            if m is not None and self.transparent_func(m):
+                return self.call_fn(fr, Fn(m, f), args, kwargs, e)
         t = self._taints(args, kwargs) | taint_of(f) | {"GAP"}
         return Unknown(f"{key(f)}(..)", t)
 
@@ -2570,7 +2773,14 @@ class Interp:
             first = args[0] if args else next(iter(kwargs.values()), None)
             payload = first.payload if isinstance(first, Opaque) and first.payload is not None else first
             if ci.name in ("Config", "FileFilter") or any(c.name == "FileFilter" for c in self.repo.mro(ci)):
+                fine = self._construct_fieldwise(fr, ci, args, kwargs, first)
+                if fine is not None:
+                    return fine
                 return Opaque(ci.name, t, f"{ci.name}({','.join(key(a) for a in args)})", payload)
+            if any(isinstance(a, Opaque) and a.exact and "EXT" in a.taint for a in [*args, *kwargs.values()]) and "Parser" in ci.name:
+                # the scanner is given a pattern filter whose tests read the external exclusion patterns
+                self.ext_scans.append((fr.fi, e))
+                t = t | {"EXTSCAN"}
             colls = [a for a in [*args, *kwargs.values()] if isinstance(a, (Coll, AltV)) or (isinstance(a, Unknown) and a.taint & {"PARSED", "CONVERTED"})]
             if len(colls) >= 2 and not ci.module.name.startswith(SCAN_PKG):
                 self.other_sinks.append((ci, [self._freeze(a) for a in colls], self.guard(), fr.fi, e))
@@ -2589,6 +2799,60 @@ class Interp:
         if post is not None and init is None:
             self.call_function(post, [], {}, obj, None, e, fr)
         return obj
+
+    def _construct_fieldwise(self, fr: Frame, ci: ClassInfo, args: list, kwargs: dict, first: "V | None") -> "Opaque | None":
+        """Config(..) / FileFilter(config) with the configuration followed attribute by attribute: the filter carries the patterns
+        (and the taint) of exactly those attributes that its tests `is_excluded` / `has_filter` read.  None: the classes are not
+        of the simple shape the summary understands - the caller falls back to `the filter is built from the first argument`."""
+        if ci.name == "Config":
+            if "Config" not in self._vocab:
+                self._vocab["Config"] = config_fields(ci)
+            fields = self._vocab["Config"]
+            if not fields or len(args) > len(fields) or any(k_ not in dict(fields) for k_ in kwargs) or any(isinstance(a, StarV) for a in args):
+                return None
+            vals: dict = {}
+            for (name, default), a in zip(fields, args):
+                vals[name] = a
+            vals.update(kwargs)
+            for name, default in fields:
+                if name not in vals:
+                    if default is None:
+                        return None
+                    vals[name] = self.ev(self.module_frame(next(iter(ci.methods.values()), fr.fi)), default) if not isinstance(default, ast.Call) else Unknown(norm(default, 30), frozenset({"GAP"}))
+            t = frozenset()
+            for v in vals.values():
+                t |= self.value_taint(v)
+            payload = first.payload if isinstance(first, Opaque) and first.payload is not None else first
+            return Opaque(ci.name, t, f"{ci.name}({','.join(key(a) for a in args)})", payload, cfg=vals)
+        if ci.name == "FileFilter" and isinstance(first, Opaque) and first.cfg is not None and len(args) + len(kwargs) == 1:
+            if "FileFilter" not in self._vocab:
+                self._vocab["FileFilter"] = filter_reads(ci)
+            reads = self._vocab["FileFilter"]
+            if not reads or not reads.get("is_excluded"):
+                return None
+            rel = sorted(reads["is_excluded"] | reads.get("has_filter", frozenset()))
+            if any(a not in first.cfg for a in rel):
+                return None
+            vals_ = [first.cfg[a] for a in rel]
+            some = [v for v in vals_ if self.patterns_empty(v) != TRUE]
+            t = frozenset()
+            for v in some:
+                t |= self.value_taint(v)
+            if any("GAP" in self.value_taint(v) for v in vals_):
+                return None
+            payload = some[0] if len(some) == 1 else (vals_[0] if not some else None)
+            # exact: what depends on the external options among the attributes read IS the external pattern tuple (possibly
+            # defaulted / copied / concatenated), not merely a value the interpreter could not separate from it
+            exact = all("EXT" not in self.value_taint(v) or self._is_pattern_tuple(v) for v in some)
+            return Opaque(ci.name, t, f"{ci.name}({key(first)})", payload, exact=exact)
+        return None
+
+    def _is_pattern_tuple(self, v: V) -> bool:
+        if isinstance(v, Unknown):
+            return v.patterns or getattr(v, "_pattern_tuple", False)
+        if isinstance(v, AltV):
+            return all(self._is_pattern_tuple(x) or self.patterns_empty(x) == TRUE for _g, x in v.alts) and any(self._is_pattern_tuple(x) for _g, x in v.alts)
+        return False
 
     def _freeze(self, v: V) -> V:
         if isinstance(v, Coll):
@@ -2660,6 +2924,12 @@ class Interp:
             return NoneV()
         if name in ("functools.partial", "partial") and args:
             return PartialV(args[0], args[1:], dict(kwargs))
+        if name in ("functools.lru_cache", "lru_cache", "functools.cache", "cache", "<memoising-wrapper>"):
+            # `lru_cache(maxsize=None)(f)` / `cache(f)`: the wrapper answers what `f` answers (shared caches are the business of R5)
+            if len(args) == 1 and not kwargs and isinstance(args[0], (Fn, BoundAPI, PartialV, Obj, AltV)):
+                return args[0]
+            if name != "<memoising-wrapper>" and not any(isinstance(a, (Fn, BoundAPI, PartialV, Obj, AltV)) for a in args):
+                return Builtin("<memoising-wrapper>")
         if name in ("operator.methodcaller", "methodcaller") and args and isinstance(args[0], Const) and isinstance(args[0].value, str):
             return PartialV(Builtin("<methodcaller>"), [args[0], *args[1:]], dict(kwargs))
         if name == "<methodcaller>" and len(args) >= 2 and isinstance(args[0], Const):
@@ -2672,7 +2942,8 @@ class Interp:
         if name == "map" and len(args) == 2:
             return MapV(args[0], args[1])
         if name == "enumerate" and args:
-            return EnumV(args[0])
+            st = args[1] if len(args) > 1 else kwargs.get("start", Const(0))
+            return EnumV(args[0], start=st.value if isinstance(st, Const) and isinstance(st.value, int) and not isinstance(st.value, bool) else None)
         if name in ("itertools.groupby", "groupby") and len(args) == 1 and not kwargs:
             return EnumV(args[0], grouped=True)
         if name in ("dict", "collections.OrderedDict", "OrderedDict") and not args and not kwargs:
@@ -2851,7 +3122,7 @@ class Interp:
                     return BoolV(self.free(f"EXCL({key(subject)})", frozenset({"EXT"})))
                 if attr == "has_filter":
                     return BoolV(atom("HAS"))
-            if "EXT" in recv.taint:
+            if "EXT" in recv.taint and not ("EXTSCAN" in recv.taint and "Parser" in recv.cls):
                 # a further method of the pattern filter (not one of its two primitives): interpreted with the filter as `self`;
                 # whatever it does with the patterns goes through is_excluded / has_filter or stays unknown
                 for ci in self.repo.classes.values():
